@@ -269,15 +269,19 @@ def stats(ctx, out):
 
 
 ST = dict(packets=0, frames=0, redundant_frames=0)
+NPROP = [0]
 
 
-def judge(ctx, exe, outs, tag):
+def judge(ctx, exe, outs, tag, recheck_whole=False):
     seen_all = set()
     drifts = {}
     good = []
     for k, ip, out, rc, err in outs:
-        if rc != 0:
-            ctx.violation("hx_encmode aborted rc=%d on %s: %s" % (rc, ip, err[-1500:]), replay_src=ip)
+        if rc in (-6, -11, -8, -7, -4, 98, 99):
+            # assertion / sanitizer abort or a crash inside the library: C02 ("no call ever fails with an internal error")
+            ctx.violation("property C02: hx_encmode aborted rc=%d on %s: %s" % (rc, ip, err[-1500:]), replay_src=ip)
+        elif rc != 0:
+            raise vf.Infra("hx_encmode rc=%d on %s: %s" % (rc, ip, err[-800:]))
         else:
             good.append((k, ip, out))
 
@@ -293,10 +297,14 @@ def judge(ctx, exe, outs, tag):
             line = exec_of(out, ip, ln)
             ev = vf.file_line(out, ln)[:700]
             if cls == "prop":
+                NPROP[0] += 1
+                if len(ctx.violations) >= 5:
+                    continue                      # counted; the first five are re-checked and reported in full
                 # R4: re-run the execution alone and judge it again before reporting
                 rp = ctx.path("rej_%s_%d.txt" % (os.path.basename(ip), ln))
                 with open(rp, "w") as f:
-                    f.write(line + "\n")
+                    # (the FUZZING build draws its decisions from rand(): only the whole plan file repeats them)
+                    f.write(open(ip).read() if recheck_whole else line + "\n")
                 out2 = rp + ".ndjson"
                 rc2, err2 = vf.run_hx(exe, [], out2, stdin_path=rp, timeout=1200)
                 rej2, _, _ = validate(ctx, out2, "G01 recheck")
@@ -376,11 +384,24 @@ def run(ctx):
     sl = rng.sample(dl, min(len(dl), 60 if tier == "quick" else 300)) + rng.sample(rl, 40 if tier == "quick" else 300)
     outs2 = run_chunks(ctx, exe2, sl, 8, "s")
     seen |= judge(ctx, exe2, outs2, "hk")
+    # the FUZZING build randomises the layer and channel decisions: the machine must accept that too (R1)
+    var3 = vf.build_variant("fuzzing")
+    exe3 = vf.build_hx(var3, "encmode.c")
+    fl = random_plans(120 if tier == "quick" else 1500, rng) + rng.sample(dl, min(len(dl), 40 if tier == "quick" else 200))
+    outs3 = run_chunks(ctx, exe3, fl, 8, "f")
+    seen |= judge(ctx, exe3, outs3, "fuzzing", recheck_whole=True)
+    ctx.notes["executions"]["asan_slice"] = len(sl)
+    ctx.notes["executions"]["fuzzing_build"] = len(fl)
     ctx.notes["tags_seen"] = sorted(seen)
     ctx.notes["observed"] = ST
+    ctx.notes["property_clause_rejections"] = NPROP[0]
     missing = REQUIRED_TAGS - seen
-    if missing and not ctx.violations:
-        raise vf.Infra("vacuity guard: machine transitions never exercised by the executions: %s" % sorted(missing))
+    if missing:
+        ctx.notes["tags_missing"] = sorted(missing)
+        # a tree that no longer follows the machine (reported above) may well not take some transitions at all;
+        # without such a report the run was vacuous
+        if not ctx.violations and not ctx.drift:
+            raise vf.Infra("vacuity guard: machine transitions never exercised by the executions: %s" % sorted(missing))
 
 
 def replay(ctx, exe):
